@@ -17,6 +17,8 @@ TYPE_RANGES = {
     'int64_t': (-2 ** 63, 2 ** 63 - 1), 'uint64_t': (0, 2 ** 64 - 1),
     'size_t': (0, 2 ** 64 - 1), 'std::size_t': (0, 2 ** 64 - 1),
     'ptrdiff_t': (-2 ** 63, 2 ** 63 - 1), 'uInt': (0, 2 ** 32 - 1),
+    'int16_t': (-2 ** 15, 2 ** 15 - 1), 'uint16_t': (0, 2 ** 16 - 1),
+    'uLong': (0, 2 ** 64 - 1), 'ssize_t': (-2 ** 63, 2 ** 63 - 1),
 }
 
 
@@ -28,6 +30,8 @@ def type_range(t):
     if t.endswith(' const'):
         t = t[:-6].strip()
     r = TYPE_RANGES.get(t)
+    if r is None and t.startswith('std::'):
+        r = TYPE_RANGES.get(t[5:])          # std::ptrdiff_t, std::int32_t, std::uint8_t ...
     if r is None:
         # size_type / difference_type typedef spellings
         if t.endswith('size_type') or t.endswith('::size_t'):
